@@ -168,6 +168,18 @@ def attr_view_mutations(d):
             d2["types"][ti]["att"]["type"]["object"][fi]["att"]["view"] = "zz_view"
             out.append((label, d2))
         break
+    # the same inside a view: View("default", func() { Attribute("owner", func() { View("zz_view") }) })
+    for target, places in uses.items():
+        for (ti, fi) in places:
+            fname = d["types"][ti]["att"]["type"]["object"][fi]["name"]
+            for vi, v in enumerate(d["types"][ti].get("views") or []):
+                for ai, a in enumerate(v["attrs"]):
+                    if a["name"] == fname:
+                        d2 = copy.deepcopy(d)
+                        d2["types"][ti]["views"][vi]["attrs"][ai]["view"] = "zz_view"
+                        out.append(("attribute-view-inside-a-view", d2))
+                        return out
+    return out
     return out
 
 
@@ -344,6 +356,29 @@ def recursion_designs():
         "mutual-map": [("Folder", [("name", P("String")), ("entries", M(R("Entry")))]), ("Entry", [("n", P("Int")), ("parent", R("Folder"))])],
     }
     out = []
+    # types that extend each other, used as payload / result of a secured and of an unsecured method
+    for where in ("payload", "result"):
+        for secured in (False, True):
+            d = {"api": "ext", "types": [
+                {"name": "A", "kind": "type", "extend": "B", "att": {"type": {"is_object": True, "object": [{"name": "a", "att": P("String")}]}}},
+                {"name": "B", "kind": "type", "extend": "A", "att": {"type": {"is_object": True, "object": [{"name": "b", "att": P("String")}]}}}],
+                "services": [{"name": "extsvc", "methods": [{"name": "run", where: R("A"), "http": {"verb": "POST", "path": "/run"}}]}]}
+            if secured:
+                d["schemes"] = [{"name": "key", "kind": "apikey"}]
+                d["services"][0]["methods"][0]["security"] = [{"schemes": ["key"]}]
+            out.append(("extend-cycle/%s/%s" % (where, "secured" if secured else "open"), d))
+    # services that are each other's parent
+    for with_path in (False, True):
+        svc = lambda n, par: dict({"name": n, "parent": par, "methods": [{"name": "show", "payload": {"type": {"is_object": True, "object": [{"name": n + "id", "att": P("String")}]}},
+                                                                       "http": {"verb": "GET", "path": "/{%sid}" % n}}]}, **({"path": "/" + n} if with_path else {}))
+        out.append(("parent-cycle/%s" % ("path" if with_path else "no-path"), {"api": "parcyc", "services": [svc("a", "b"), svc("b", "a")]}))
+    # a result type rendered with a view it does not define (View("nope") without DSL), used and unused
+    for used in (False, True):
+        d = {"api": "rv", "types": [{"name": "Rv", "kind": "result", "identifier": "application/vnd.rv", "render_view": "nope",
+                                     "att": {"type": {"is_object": True, "object": [{"name": "a", "att": P("String")}]}},
+                                     "views": [{"name": "default", "attrs": [{"name": "a"}]}]}],
+             "services": [{"name": "rvsvc", "methods": [dict({"name": "run", "http": {"verb": "GET", "path": "/run"}}, **({"result": R("Rv")} if used else {}))]}]}
+        out.append(("render-view-undefined/%s" % ("used" if used else "unused"), d))
     for sname, types in shapes.items():
         for transport in ("http", "grpc", "both"):
             for where in ("payload", "result", "error"):
